@@ -72,6 +72,34 @@ def _job(args):
                    f"{type(e).__name__}: {e}\n{traceback.format_exc(limit=8)}").to_json()], time.time() - t0
 
 
+LEMMA_FILES = {"C02": ["LinearODE.lean"], "C04": ["LinearODE.lean"], "C05": ["LinearODE.lean"], "C08": ["LinearODE.lean"], "C06": ["Taylor.lean"],
+               "C07": ["TrigMono.lean"]}
+
+
+def lean_results(prop):
+    """thorough tier: the Lean proofs of the lemmas this property leans on are re-compiled as part of the check"""
+    import shutil
+    import subprocess
+    out = []
+    lean = shutil.which("lean")
+    for fn in LEMMA_FILES.get(prop, []):
+        path = os.path.join(ROOT, "lemmas", fn)
+        t0 = time.time()
+        if not lean or not os.path.exists(path):
+            out.append(Result(f"{prop}.lemma[{fn}]", "lemma file compiles in Lean 4 / mathlib", UNDECIDED, "LEAN", "", 0.0, "lean or the file is not available").to_json())
+            continue
+        try:
+            r = subprocess.run([lean, path], capture_output=True, text=True, timeout=1800, cwd=os.path.join(ROOT, "lemmas"))
+            txt = r.stdout + r.stderr
+            axioms = [l for l in txt.splitlines() if "depends on axioms" in l]
+            ok = r.returncode == 0 and "error" not in txt and "sorry" not in txt and bool(axioms)
+            out.append(Result(f"{prop}.lemma[{fn}]", f"{fn}: {len(axioms)} theorem(s) accepted by Lean 4 + mathlib without sorry (standard axioms only)",
+                              PROVED if ok else ERROR, "LEAN", "", time.time() - t0, "; ".join(a.split("'")[1] for a in axioms if "'" in a) if ok else txt[-600:], None, len(axioms)).to_json())
+        except Exception as e:
+            out.append(Result(f"{prop}.lemma[{fn}]", "lemma file compiles in Lean 4 / mathlib", ERROR, "LEAN", "", time.time() - t0, f"{type(e).__name__}: {e}").to_json())
+    return out
+
+
 def check_lemmas():
     """compile the Lean 4 / mathlib proofs of the mathematical lemmas the contracts rely on (lemmas/*.lean): no error, no
     `sorry`, only the three standard axioms.  Not part of the per-property checks (keeps them fast)."""
@@ -199,6 +227,8 @@ def main(argv=None):
                 results.extend(rs)
         pool.terminate()
 
+    if tier == "thorough" and not a.filter:
+        results.extend(lean_results(prop))
     known, fixed = load_known(prop)
     violations, undecided, errors, known_hits = [], [], [], []
     assumed = [r for r in results if r["status"] == ASSUMED]
